@@ -279,6 +279,37 @@ def rule_r7(facts, rep, rid="C13-R7"):
     if not lit:
         rep.anchor_missing(rid, "InlineRange literal in DocumentInline::key_range")
         return
+    # a wiki link (`[[key]]`, `[[key|text]]`) has its key right behind the opening brackets: a literal under a test of `link_type` may measure the key by its
+    # length (a wiki target is literal source text, nothing is unescaped in it); the literal for ordinary links is the one this rule is about
+    def _under_link_type(x_):
+        for p_ in cg_.parents(x_):
+            if p_.get("k") == "if" and ("field", "link_type") in cg_.mentions(p_.get("c")):
+                return True
+            if p_.get("k") == "match":
+                if ("field", "link_type") in cg_.mentions(p_.get("e")):
+                    return True
+                for arm_ in p_.get("arms", []):
+                    if arm_.get("guard") is not None and any(y is x_ for y in fb.walk(arm_["body"])) and ("field", "link_type") in cg_.mentions(arm_["guard"]):
+                        return True
+        return False
+    plain = [x for x in lit if not _under_link_type(x)]
+    for i_, x in enumerate(x_ for x_ in lit if _under_link_type(x_)):
+        fl_ = {fl["name"]: fl["e"] for fl in x["fields"]}
+        sm = cg_.mentions(fl_.get("start"))
+        if ("field", "inline_range") in sm and ("field", "start") in sm:
+            rep.ok(rid, "%s|wiki-link-key-behind-the-brackets|%d" % (g.def_, i_), "start = inline_range.start + 2", loc(g, x))
+        else:
+            rep.violation(rid, "%s|wiki-link-key-behind-the-brackets|%d" % (g.def_, i_), "the key range of a wiki link does not start from the link's source start", loc(g, x))
+    k_w = g.def_ + "|wiki-links-measured-as-wiki-links"
+    if len(plain) < len(lit):
+        rep.ok(rid, k_w, "a separate range under a test of link_type", loc(g, lit[0]))
+    else:
+        rep.violation(rid, k_w, "key_range applies the `[text](url)` arithmetic (text length + 3 .. end - 1) to every link: for `[[key]]` the range handed to prepare-rename is "
+                      "inverted, for `[[key|text]]` it lies inside the text", loc(g, lit[0]))
+    if not plain:
+        rep.anchor_missing(rid, "InlineRange literal for ordinary links in DocumentInline::key_range")
+        return
+    lit = plain
     flds = {fl["name"]: fl["e"] for fl in lit[0]["fields"]}
     endp = through_lets(cg_, flds.get("end"))
     ch = None
